@@ -744,8 +744,20 @@ func runV(o *outT, r *rnd, step int, last *types.ValidatorSet, reported []*types
 	} else if len(reported) > 0 {
 		o.Count("valset:accepted")
 	}
-	for k := 0; k < 3; k++ {
-		res2, full2 := doit(permVals(r, reported), k > 0)
+	// the orders compared with the order given: three shuffles, the report listed in CURRENT-RANK
+	// order (position p carries the power the current set has at p wherever that is possible — what a
+	// contract that ranks by power produces after a swap of powers or an equal-power replacement),
+	// that order reversed, and the report sorted by address
+	aligned := alignByPower(last.Validators, reported)
+	rev := make([]*types.Validator, len(aligned))
+	for i, v := range aligned {
+		rev[len(aligned)-1-i] = v.Copy()
+	}
+	byAddr := permVals(r, reported)
+	sort.Slice(byAddr, func(i, j int) bool { return bytes.Compare(byAddr[i].Address[:], byAddr[j].Address[:]) < 0 })
+	orders := [][]*types.Validator{permVals(r, reported), permVals(r, reported), permVals(r, reported), aligned, rev, byAddr}
+	for k, ord := range orders {
+		res2, full2 := doit(ord, k > 0 && k < 3)
 		if res2 != res || full2 != full {
 			cls := "valset-order-dependent"
 			seenA := map[common.Address]bool{}
@@ -759,6 +771,40 @@ func runV(o *outT, r *rnd, step int, last *types.ValidatorSet, reported []*types
 			break
 		}
 	}
+}
+
+// alignByPower: a permutation of rep in which position p carries the voting power last[p] has,
+// wherever an unused entry with that power exists (entries of other validators preferred); the rest
+// follows in the given order.
+func alignByPower(last []*types.Validator, rep []*types.Validator) []*types.Validator {
+	used := make([]bool, len(rep))
+	var res []*types.Validator
+	for p := 0; p < len(last) && len(res) < len(rep); p++ {
+		pick := -1
+		for i, v := range rep {
+			if !used[i] && v.VotingPower == last[p].VotingPower {
+				if pick < 0 || (rep[pick].Address == last[p].Address && v.Address != last[p].Address) {
+					pick = i
+				}
+			}
+		}
+		if pick < 0 {
+			for i := range rep {
+				if !used[i] {
+					pick = i
+					break
+				}
+			}
+		}
+		used[pick] = true
+		res = append(res, rep[pick].Copy())
+	}
+	for i, v := range rep {
+		if !used[i] {
+			res = append(res, v.Copy())
+		}
+	}
+	return res
 }
 
 func genV(o *outT, r *rnd, step int) {
@@ -825,6 +871,47 @@ func genV(o *outT, r *rnd, step int) {
 	}
 	for k := r.Intn(3); k > 0; k-- {
 		rep = append(rep, types.NewValidator(addr(), power()))
+	}
+	// same multiset of powers, other owners: two members swap their powers (stake moved from one to
+	// the other), three rotate them, a member is replaced by a newcomer with exactly its power —
+	// rank by rank the powers of the report are those of the current set, the addresses are not
+	special := r.Pick(12, 3, 1, 3, 1)
+	if special > 0 {
+		rep = nil
+		for _, v := range last.Validators {
+			rep = append(rep, types.NewValidator(v.Address, v.VotingPower))
+		}
+		n := len(rep)
+		switch {
+		case special == 1 && n >= 2:
+			i, j := r.Intn(n), r.Intn(n)
+			if rep[i].VotingPower != rep[j].VotingPower {
+				rep[i].VotingPower, rep[j].VotingPower = rep[j].VotingPower, rep[i].VotingPower
+				tag = "power-swap"
+			}
+		case special == 2 && n >= 3:
+			p := r.Perm(n)
+			a, b, c := rep[p[0]], rep[p[1]], rep[p[2]]
+			a.VotingPower, b.VotingPower, c.VotingPower = b.VotingPower, c.VotingPower, a.VotingPower
+			tag = "power-rotation"
+		case special == 3:
+			i := r.Intn(n)
+			rep[i] = types.NewValidator(addr(), rep[i].VotingPower)
+			tag = "same-power-replacement"
+		case special == 4 && n >= 2:
+			i, j := r.Intn(n), r.Intn(n)
+			if i != j {
+				rep[i] = types.NewValidator(addr(), rep[i].VotingPower)
+				rep[j].VotingPower, rep[i].VotingPower = rep[i].VotingPower, rep[j].VotingPower
+				tag = "replacement-and-swap"
+			}
+		}
+		if r.Bool() { // listed in current-rank order (as built), or shuffled
+			runV(o, r, step, last, alignByPower(last.Validators, rep), tag+"/rank-order")
+		} else {
+			runV(o, r, step, last, permVals(r, rep), tag+"/shuffled")
+		}
+		return
 	}
 	switch r.Pick(14, 2, 1, 1, 1, 1, 1) {
 	case 1:
